@@ -53,7 +53,13 @@ _D = {}
 _registry0 = None
 
 
+_SETUP_DONE = []
+
+
 def setup():
+    if _SETUP_DONE:
+        return
+    _SETUP_DONE.append(1)
     global _registry0
     from .. import core
 
